@@ -74,6 +74,7 @@ type State struct {
 
 	defers []*deferred
 	roRefs map[string]string // backing stores that are read-only copies of array values
+	ginit  map[*types.Var]bool
 }
 
 func (s *State) clone() *State {
@@ -104,6 +105,12 @@ func (s *State) clone() *State {
 	c.roRefs = map[string]string{}
 	for k, v := range s.roRefs {
 		c.roRefs[k] = v
+	}
+	if s.ginit != nil {
+		c.ginit = map[*types.Var]bool{}
+		for k, v := range s.ginit {
+			c.ginit[k] = v
+		}
 	}
 	return &c
 }
